@@ -19,6 +19,7 @@ unprotected original's trace.
 """
 import io
 import os
+import re
 import random
 import shutil
 import tempfile
@@ -355,7 +356,8 @@ class Monitor(object):
             return
         case = {'program': self.prog['lines'], 'line': line, 'phase': phase, 'output': out, 'handler_active': trap}
         code, _ = self.harness.err_of(out)
-        trapped = out.count(b'#e 5  65535')
+        # TRON prefixes and the wrap of a PRINT item that no longer fits on the screen row are layout, not content
+        trapped = re.sub(br'\[\d+\]', b'', out).replace(b'\r\n', b'').count(b'#e 5  65535')
         if code == 5:
             res.count('must_fail_error5_seen')
             if chained:
@@ -534,6 +536,7 @@ def _session(harness, res, rng, mon, prog, other, helper, loader, n_free, full_t
     mon.peek_sweep('before-run', extra=(600 if full_tables else 150))
 
     # ---- 2. the program still runs exactly as its original -----------------------------------------------
+    mon.ex(b'TROFF:CLS', 'CLS', 'run')
     out = mon.ex(b'RUN', 'RUN', 'run')
     _check_trace(mon, out, 'run')
 
@@ -605,7 +608,7 @@ def _session(harness, res, rng, mon, prog, other, helper, loader, n_free, full_t
             if r0 != ('err', 5):
                 res.violation('not-error-5:PEEK', 'after free statements PEEK gave %r' % (r0,), {'program': prog['lines']})
     mon.ex(b'ON ERROR GOTO 0', 'ON-ERROR', 'free')
-    mon.ex(b'TROFF:CLOSE:DEF SEG:SCREEN 0:WIDTH 80', 'CLOSE', 'free')
+    mon.ex(b'TROFF:CLOSE:DEF SEG:SCREEN 0:WIDTH 80:CLS', 'CLOSE', 'free')
     out = mon.ex(b'RUN', 'RUN', 'run-after-free')
     _check_trace(mon, out, 'run-after-free')
     mon.other_segments('segments')
